@@ -70,6 +70,16 @@ def check(repo, rep):
     else:
         rep.info.append('recorder typestate machine undecided: %s' % tm.undecided[0][:200])
     rep.extra['recorder_typestate'] = dict(abstract_states=tm.states_seen, decided=machine_decided, undecided=tm.undecided[:3])
+    # The rules below look at HOW the class does it (which field is the cache, which flag, which pointer is switched).  When the
+    # representation-independent machine above has decided every clause and found nothing, a shape these rules do not recognise is
+    # not a violation of the property: their failures are then reported as "not recognised" (INCONCLUSIVE), never as VIOLATION.
+    machine_clean = machine_decided and not tm.violations
+
+    def rob(rule, ok, where, construct=None, message=None, **kw):
+        if ok or not machine_clean:
+            return rep.ob(rule, ok, where, construct, message, **kw)
+        rep.unknown('%s [%s at %s]: the recorder is written in a form this rule does not recognise (%s); the typestate machine found every clause satisfied' % (rule, construct or '', where, (message or '')[:120]))
+        return None
     # ---------------------------------------------------------------- 1. read-and-cache
     cache_fields = set()
     caching = None
@@ -93,18 +103,18 @@ def check(repo, rep):
         ncache += 1
         v = l.value
         isread = v[0] == 'call' and v[1][0] == 'attr' and v[1][2] == 'read' and v[2] == (('p', caching.args.args[1].arg),)
-        rep.ob('the recording read returns the inner block unchanged (same size request)', isread, W(l.node), '_Recorder.%s:returns' % caching.name, 'returns %s' % show(v)[:100])
+        rob('the recording read returns the inner block unchanged (same size request)', isread, W(l.node), '_Recorder.%s:returns' % caching.name, 'returns %s' % show(v)[:100])
         apps = [e for e in l.effects if e[0] == 'call' and e[1][0] == 'call' and e[1][1] == ('attr', ('attr', ('self',), cache), 'append')]
         notnone = any((g := norm_cmp(c[0], c[1])) and g[0] == 'is not' and g[1] == v and g[2] == ('c', None) for c in l.conds) or any(c[0] == v and c[1] for c in l.conds)
         isnone = any((g := norm_cmp(c[0], c[1])) and g[0] == 'is' and g[1] == v and g[2] == ('c', None) for c in l.conds) or any(c[0] == v and not c[1] for c in l.conds)
         if notnone:
             ok = len(apps) == 1 and apps[0][1][2] == (v,)
-            rep.ob('every block handed out is appended to the cache exactly once, unmodified', ok, W(l.node), '_Recorder.%s:append' % caching.name, 'appends: %s' % [show(a[1])[:80] for a in apps],
+            rob('every block handed out is appended to the cache exactly once, unmodified', ok, W(l.node), '_Recorder.%s:append' % caching.name, 'appends: %s' % [show(a[1])[:80] for a in apps],
                    sample=dict(path='data', appends=[show(a[1])[:70] for a in apps]))
         elif isnone:
-            rep.ob('end of stream (None) is not recorded', not apps, W(l.node), '_Recorder.%s:append-none' % caching.name)
+            rob('end of stream (None) is not recorded', not apps, W(l.node), '_Recorder.%s:append-none' % caching.name)
         else:
-            rep.ob('a block is cached only after it was tested against None', not apps, W(l.node), '_Recorder.%s:unguarded-append' % caching.name)
+            rob('a block is cached only after it was tested against None', not apps, W(l.node), '_Recorder.%s:unguarded-append' % caching.name)
     rep.floor('recording read paths', ncache, 2)
     # the read() of the recorder goes through the switchable reader field, initially the caching method
     rb = [f for f, ds in defs.items() if any(d['method'] == '__init__' and d['value'] == ('attr', ('self',), caching.name) for d in ds)]
@@ -115,7 +125,7 @@ def check(repo, rep):
         if l.outcome == 'return':
             v = l.value
             ok = v[0] == 'call' and ((v[1][0] == 'attr' and v[1][1] == ('self',) and (v[1][2] in rb or v[1][2] == caching.name))) and v[2] == (('p', 'size'),)
-            rep.ob('_Recorder.read(size) delegates to the current reader (caching first, cache source after rewind)', ok, W(l.node), '_Recorder.read', 'returns %s' % show(v)[:80])
+            rob('_Recorder.read(size) delegates to the current reader (caching first, cache source after rewind)', ok, W(l.node), '_Recorder.read', 'returns %s' % show(v)[:80])
     # ---------------------------------------------------------------- 2. rewind
     wl = cx.leaves(mod, '_Recorder.rewind')
     wfn = cx.fn(mod, '_Recorder.rewind')
@@ -123,9 +133,9 @@ def check(repo, rep):
     flags = [f for f, ds in defs.items() if any(d['method'] == '__init__' and d['value'] == ('c', False) for d in ds)
              and (any(d['method'] == 'rewind' and d['value'] == ('c', True) for d in ds) or f in tested_in_rewind)]
     datafields = [f for f, ds in defs.items() if any(d['method'] == 'rewind' and P.method(P.const(b''), 'join', P.field(cache))(d['value']) for d in ds)]
-    rep.ob('rewind freezes the recording as b"".join(cache) (blocks in read order)', len(datafields) == 1, W(wfn), '_Recorder.rewind:data', 'fields assigned b"".join(cache): %s' % datafields)
+    rob('rewind freezes the recording as b"".join(cache) (blocks in read order)', len(datafields) == 1, W(wfn), '_Recorder.rewind:data', 'fields assigned b"".join(cache): %s' % datafields)
     if len(flags) == 1:
-        rep.ob('a first-rewind flag exists (False at construction, True after the first rewind)', True, W(wfn), '_Recorder.rewind:flag', 'candidates %s' % flags)
+        rob('a first-rewind flag exists (False at construction, True after the first rewind)', True, W(wfn), '_Recorder.rewind:flag', 'candidates %s' % flags)
     elif not machine_decided:
         rep.unknown('_Recorder.rewind: how the recorder remembers that it was rewound (a boolean field False at construction, True after the first rewind) was not recognised: candidates %s; the typestate machine is undecided too (%s)' % (flags, tm.undecided[0][:120]))
     nfirst = nlater = 0
@@ -141,24 +151,24 @@ def check(repo, rep):
                 calls = [e[1] for e in l.effects if e[0] == 'call']
                 ok = any(P.method(P.attr(SELF, '_audio_source'), 'rewind')(c) or (c[0] == 'call' and c[1][0] == 'attr' and c[1][2] == 'rewind') for c in calls)
                 stores = [e for e in l.effects if e[0] == 'store' and e[1][2] in (dfield, cache)]
-                rep.ob('later rewinds rewind the in-memory source and keep the recorded data', ok and not stores, W(wfn), '_Recorder.rewind[later]', 'calls %s, stores %s' % ([show(c)[:50] for c in calls], [show(s_[1]) for s_ in stores]),
+                rob('later rewinds rewind the in-memory source and keep the recorded data', ok and not stores, W(wfn), '_Recorder.rewind[later]', 'calls %s, stores %s' % ([show(c)[:50] for c in calls], [show(s_[1]) for s_ in stores]),
                        sample=dict(path='later rewind', calls=[show(c)[:60] for c in calls]))
             else:
                 nfirst += 1
                 stores = {e[1][2]: e for e in l.effects if e[0] == 'store' and e[1][0] == 'attr' and e[1][1] == ('self',)}
                 newsrc = [(f, e) for f, e in stores.items() if e[2][0] == 'call' and e[2][1][0] == 'g' and e[2][1][2] == 'BufferAudioSource']
                 ok = len(newsrc) == 1 and newsrc[0][1][2][2][:1] in ((('attr', ('self',), dfield),), (stores[dfield][2],) if dfield in stores else ())
-                rep.ob('the first rewind replaces the source by an in-memory source over the recorded data', ok, W(wfn), '_Recorder.rewind[first]:source', 'new source: %s' % [show(e[2])[:100] for _, e in newsrc],
+                rob('the first rewind replaces the source by an in-memory source over the recorded data', ok, W(wfn), '_Recorder.rewind[first]:source', 'new source: %s' % [show(e[2])[:100] for _, e in newsrc],
                        sample=dict(path='first rewind', new_source=[show(e[2])[:90] for _, e in newsrc]))
                 if newsrc:
                     sf = newsrc[0][0]
                     # the switchable reader now reads from the new source
                     sw_ok = any(f in rb and (e[2] == ('attr', ('attr', ('self',), sf), 'read') or e[2] == ('attr', newsrc[0][1][2], 'read')) for f, e in stores.items())
-                    rep.ob('after the first rewind reads come from the recorded data (reader switched to the new source)', sw_ok, W(wfn), '_Recorder.rewind[first]:switch', 'stores: %s' % {f: show(e[2])[:60] for f, e in stores.items()})
+                    rob('after the first rewind reads come from the recorded data (reader switched to the new source)', sw_ok, W(wfn), '_Recorder.rewind[first]:switch', 'stores: %s' % {f: show(e[2])[:60] for f, e in stores.items()})
                     idx_new = [i for i, e in enumerate(l.effects) if e is newsrc[0][1]]
                     idx_open = [i for i, e in enumerate(l.effects) if e[0] == 'call' and e[1][0] == 'call' and e[1][1][0] == 'attr' and e[1][1][2] == 'open']
-                    rep.ob('the replay source is opened (after it replaced the original)', bool(idx_open) and bool(idx_new) and idx_open[-1] > idx_new[0], W(wfn), '_Recorder.rewind[first]:open')
-                rep.ob('the first-rewind flag is set', flag in stores and stores[flag][2] == ('c', True), W(wfn), '_Recorder.rewind[first]:flag-set')
+                    rob('the replay source is opened (after it replaced the original)', bool(idx_open) and bool(idx_new) and idx_open[-1] > idx_new[0], W(wfn), '_Recorder.rewind[first]:open')
+                rob('the first-rewind flag is set', flag in stores and stores[flag][2] == ('c', True), W(wfn), '_Recorder.rewind[first]:flag-set')
     if not (machine_decided and len(flags) != 1):
         rep.floor('_Recorder.rewind first/later paths', min(nfirst, nlater), 1)
     # ---------------------------------------------------------------- 3. data before the first rewind
@@ -174,15 +184,15 @@ def check(repo, rep):
         rets = [l for l in dl if l.outcome == 'return']
         dfield = datafields[0] if datafields else '_data'
         okr = any((gd := norm_cmp(l.conds[-1][0], l.conds[-1][1])) and gd[0] == 'is' and gd[1] == ('attr', ('self',), dfield) and gd[2] == ('c', None) for l in raises if l.conds)
-        rep.ob('data raises while nothing was frozen yet (before the first rewind)', okr, W(g), '_Recorder.data:guard', 'raising conditions %s' % [show(l.conds[-1][0])[:60] for l in raises if l.conds])
+        rob('data raises while nothing was frozen yet (before the first rewind)', okr, W(g), '_Recorder.data:guard', 'raising conditions %s' % [show(l.conds[-1][0])[:60] for l in raises if l.conds])
         has_getattr = cx.model.find_method(mod, rc, '__getattr__') is not None
         for l in raises:
             en = exc_name(l)
             rep.ob('the data guard raises an error that attribute lookup does not swallow (AttributeError from a property falls back to __getattr__, which forwards `data` to the wrapped source)',
                    not (has_getattr and en == 'AttributeError'), W(l.node), '_Recorder.data:exception-type', 'raises %s in a class whose __getattr__ delegates to the wrapped source' % en)
-        rep.ob('data returns the frozen recording', bool(rets) and all(l.value == ('attr', ('self',), dfield) for l in rets), W(g), '_Recorder.data:returns', 'returns %s' % [show(l.value)[:60] for l in rets])
+        rob('data returns the frozen recording', bool(rets) and all(l.value == ('attr', ('self',), dfield) for l in rets), W(g), '_Recorder.data:returns', 'returns %s' % [show(l.value)[:60] for l in rets])
         init0 = any(d['method'] == '__init__' and d['value'] == ('c', None) for d in defs.get(dfield, []))
-        rep.ob('the recording starts unset (None) at construction', init0, W(cx.fn(mod, '_Recorder.__init__')), '_Recorder.__init__:data-none')
+        rob('the recording starts unset (None) at construction', init0, W(cx.fn(mod, '_Recorder.__init__')), '_Recorder.__init__:data-none')
     # ---------------------------------------------------------------- 3b. the limiter's view of the recording uses the budget that read() enforces
     lc = cx.cls(mod, '_Limiter', required=False)
     if lc is not None:
